@@ -278,6 +278,7 @@ int __wrap_clock_gettime(clockid_t clk, struct timespec* ts) {
   if (!inTask()) return clock_gettime(clk, ts);
   chargeCall(); yieldSync();
   int64_t t = (clk == CLOCK_REALTIME || clk == CLOCK_REALTIME_COARSE) ? realtimeNs() : nowNs();
+  if (clk == CLOCK_REALTIME_COARSE || clk == CLOCK_MONOTONIC_COARSE) t -= t % 4000000LL;   /* the coarse clocks stand still between timer ticks (4 ms): they lag the precise ones by up to a tick */
   ts->tv_sec = t / 1000000000LL; ts->tv_nsec = t % 1000000000LL;
   return 0;
 }
